@@ -98,7 +98,18 @@ fn stat_events<B: Be>(g: &mut Gen, run: &mut i64, n: usize, out: &mut Out) {
     for _ in 0..n {
         *run += 1;
         let x = g.rng.gen_range(0.0..1.0);
-        if x < 0.6 {
+        if x < 0.2 {
+            // sample covariance of columns that each carry a large common offset (small-integer structure on top)
+            let (r, c) = (g.rng.gen_range(2..=8usize), g.rng.gen_range(1..=4usize));
+            let cov_offsets: Vec<i64> = if f32ty { vec![0, 100, -100, 1000, -1000] } else { vec![0, 100_000, -10_000_000, 100_000_000, -100_000_000, 134_217_728] };
+            let offs: Vec<i64> = (0..c).map(|_| cov_offsets[g.rng.gen_range(0..cov_offsets.len())]).collect();
+            let sp = spreads[g.rng.gen_range(1..spreads.len())];
+            let d: Vec<i64> = (0..r * c).map(|k| offs[k % c] + g.rng.gen_range(0..=sp)).collect();
+            let call = OpCall::new("cov", 0, 0, 0, vec![], vec![], vec![]);
+            if let Some(e) = file.exec_stat(*run, &call, "m", r, c, &d) {
+                out.emit(e);
+            }
+        } else if x < 0.6 {
             // variance / standard deviation of data sharing a common offset
             let off = offsets[g.rng.gen_range(0..offsets.len())];
             let sp = spreads[g.rng.gen_range(0..spreads.len())];
